@@ -2,6 +2,7 @@ package checks
 
 import (
 	"fmt"
+	"math"
 	"os"
 	"strings"
 	"sync"
@@ -105,6 +106,8 @@ func StructConfigs(thorough bool, caches []string, formats []string) []*world.Co
 	cs = append(cs, world.BytesCfg(2, []uint8{0, 1, 0, 2, 0}, formats[len(formats)-1], "none"))
 	cs = append(cs, world.StructCfg(2, []uint8{0, 1, 0, 2, 0}, formats[len(formats)-1], "none"))
 	cs = append(cs, world.IntCfg(2, []int{-4, -2, -1, 0, 1, 2, 4}, []interface{}{"a"}, "", f0, "none"))
+	// 64-bit keys further apart than the type can express as a difference
+	cs = append(cs, world.Int64Cfg(2, []int64{math.MinInt64 + 3, -4, 0, 6, math.MaxInt64 - 3}, f0, "none"))
 	// narrow integer keys: numeric layers, ordered by their decimal text ("10" < "9")
 	cs = append(cs, world.Int32Cfg(2, []int32{-2, 9, 10, 100, 4}, f0, "none"))
 	cs = append(cs, world.Uint8Cfg(2, []uint8{2, 10, 100, 9, 200}, formats[len(formats)-1], "none"))
